@@ -281,7 +281,9 @@ def masked_reduction(ctx: Ctx):
         need(inner is not None, f"compute_ccv ({tag}): the u_and_f call was not found")
         u, f = ("sub", inner, ("const", 0)), ("sub", inner, ("const", 1))
         # the wrapped function: productmap(u_and_f, continuous choices) iff there are any
-        w = inner[1]
+        from lcmsa.rules_kernel import covered_functions
+
+        w = prog.expand(inner[1], skip=covered_functions(prog))  # see through a helper that a refactoring extracted
         q = factory.qualname
         uf_param = ("param", q, "utility_and_feasibility")
         cc_param = ("param", q, "continuous_choice_variables")
@@ -313,7 +315,7 @@ def masked_reduction(ctx: Ctx):
             ctx.ob("ALG2:policy:masked-argmax", okp, where,
                    "policy = arg-max of utility over all continuous choices where feasible (initial -inf)" if okp
                    else "the policy is not argmax(u, where=f, initial=-inf) over all axes", lhs=a)
-            okr = r == ("tuple", (("sub", a, ("const", 0)), ("sub", a, ("const", 1))))
+            okr = r in (("tuple", (("sub", a, ("const", 0)), ("sub", a, ("const", 1)))), a)
             ctx.ob("ALG2:policy:returns-index-then-max", okr, where,
                    "returns (arg-max index, maximum)" if okr else "return order is not (index, maximum)", lhs=r)
     # twins in get_lcm_function: both built from the same u_and_f object and choice list
